@@ -55,7 +55,7 @@ const (
 	modeClean   mode = iota // no loss / duplication / reordering / corruption; stalls, sizes, MTUs, path changes
 	modeFaulty              // frame drop / dup / reorder / delay, send errors, tunnel errors, path changes
 	modeCorrupt             // modeFaulty plus truncation, bit flips and garbage frames
-	modeFresh               // like clean, but long runs (2000-3000 frames, small frames) on a frame buffer pool re-created for the run: every buffer of the pool is recycled within the run
+	modeFresh               // like clean, but long runs (up to 3000 small frames): every buffer of the receiver's pool is recycled within the run
 	modeCollide             // no network faults at all; path changes at instants that give the new sender the stream id of an earlier one
 )
 
@@ -152,11 +152,9 @@ func (s *sim) start() {
 	r := s.r
 	s.frameBudget, s.pktBudget = 1400, 300
 	if s.mode == modeFresh {
-		s.frameBudget, s.pktBudget = 3000, 900
-		poolDirty = true // this run gets a pool of its own
+		s.frameBudget, s.pktBudget = 3000, 900 // long enough to recycle every buffer of the pool
 	}
-	preparePool()
-	resetStreamIDs()
+	resetProcessState()
 	s.t0 = time.Now()
 	s.lastDrain = s.t0
 	s.cur = -1
@@ -747,7 +745,7 @@ func (s *sim) judgeEmitted(em []byte) {
 	p.emitted++
 	r.Logf("%v E id=%d len=%d stream=%d", s.now(), p.id, len(em), p.stream)
 	st := s.strs[p.stream]
-	strict := s.mode == modeClean || st.serial == s.strictOnly || (s.mode == modeCollide && !s.collided)
+	strict := st.serial == s.strictOnly || (s.faultFree() && !s.collided)
 	if !strict {
 		if p.emitted > 1 {
 			r.Probe("packet-emitted-twice")
@@ -1257,10 +1255,12 @@ func run(r *core.Run, m mode) {
 		s.shutdown()
 		ringbuf.SimYield = nil
 		synctest.Wait()
-		if lost := auditPool(!r.Failed() && s.srvDone.Load() && s.tun.alive() == 0); lost > 0 {
-			// frame buffers that the receiving gateway never returned to its pool (it does not
-			// release what a stopped worker still holds); the next run gets a fresh pool
-			r.Probes["rx-frame-buffers-not-returned"] += lost
+		if !r.Failed() && s.srvDone.Load() && s.tun.alive() == 0 {
+			if lost := auditPool(); lost > 0 {
+				// frame buffers that the receiving gateway never returned to its pool (it does
+				// not release what a stopped worker still holds)
+				r.Probes["rx-frame-buffers-not-returned"] += lost
+			}
 		}
 		for _, k := range []string{"too_old", "duplicate", "evicted", "invalid"} {
 			if n := s.cnt.get("discard:" + k); n > 0 {
